@@ -190,6 +190,15 @@ def obligations(tier):
                                      f'outside the window: {"absent / empty" if bg == 0 else "all present (concrete)"}; {plan}',
                               claim='from_node(as_node(x)) equals x member-wise; absent members read back as implied/default (also per '
                                     'XSD documentation) and not as the shared class-level object; as_node(from_node(as_node(x))) == as_node(x)'))
+    obs.append(Ob('C05.schema_mapping.selected', 'harness.C05_real', 'schema_mapping', timeout=120,
+                  functions=['sdc11073.xml_types.pm_types.CauseInfo', 'sdc11073.xml_types.pm_types.PerformedOrderDetail',
+                             'sdc11073.xml_types.addressing_types.RelatesTo'],
+                  stubs=['real lxml and the bundled schemas (schema_resolver.mk_schema_validator); hand-built values, selectors chosen '
+                         'by the solver; real interpreter semantics'],
+                  bounds='3 members whose mapping to the schema a library-internal round trip cannot see (CauseInfo.RemedyInfo optional, '
+                         'PerformedOrderDetail.ResultingClinicalInfo element name, RelatesTo/@RelationshipType attribute) x 2 variants',
+                  claim='the written XML validates against the bundled schemas, a schema-valid document is read back to the value, an '
+                        'explicit attribute is not replaced by the implied value'))
     only = os.environ.get('VERIF_ONLY')      # development aid: run only obligations whose id contains one of these texts
     if only:
         obs = [o for o in obs if any(t in o.id for t in only.split(','))]
